@@ -39,6 +39,10 @@ def broken_variant(K, rng, vid):
                 v["arches"] = list(base["arches"]) + [foreign[0]]
             else:
                 v["arches"] = []
+            # the subset rule holds for every kind of child, a layered product (which carries its own release) included
+            v["type"] = pick(rng, ["variant", "optional", "addon", "layered-product", "layered-product"])
+            if v["type"] == "layered-product":
+                v["release"] = gen_ci.gen_release_for_variant(rng)
     elif kind == "misaligned":
         v["id"], v["uid"] = fresh_id, ("Else-" + fresh_id) if puid is not None else (fresh_id + "x")
     elif kind == "bad-id":
